@@ -7,6 +7,7 @@ T3 = "T3 hand-written models of x86 instructions Kani cannot execute (pmaxub, vp
 T4 = "T4 external crates (simdutf8, std String/Vec/Arc, bumpalo, ahash, faststr, bytes, serde, ryu, itoa) assumed correct"
 T5 = "T5 float conversion (sonic_number::parse_float / lemire / slow path) correct rounding assumed"
 T6 = "T6 machine facts: usize is 64-bit (`global size_of usize == 8`), input length <= 2^62, little-endian"
+T9 = "T9 (unit decoder_inplace): `read.data()` denotes the text as it was when parsing started; Parser::parse_string_inplace physically overwrites bytes inside the string literal it has just consumed (escape compaction) and the unit treats that as invisible; sound for the forward-only parser, except for Parser::error's re-scan, which is decided separately (C20 dom_entry_error_position*, F14); parse_string_inplace's acceptance/decoded-text contract is ASSUMED (pointer loop: CBMC does not finish, outside the Verus subset)"
 T8 = "substitution helpers with assumed contracts: as_array64 (pointer cast of a >=64-byte slice), slice_eq (== on byte slices), as_str (from_utf8_unchecked keeps the bytes)"
 VSTD = "vstd axioms (Seq, trailing_zeros, wrapping/saturating ops, str spec_bytes/reveal_strlit) and Z3 are trusted"
 KANI = "Kani/CBMC compilation of MIR and CBMC's bit-precise semantics are trusted; Kani builds debug_assertions ON and target features OFF (x86 modules are pulled in by #[path])"
@@ -105,15 +106,15 @@ PROPS["C08"] = {
 
 PROPS["C02"] = {
     "level": "proof",
-    "verus": [{"unit": "recognisers", "rlimit": 200}, {"unit": "decoder", "rlimit": 300}, {"unit": "serde_access", "rlimit": 200}],
+    "verus": [{"unit": "recognisers", "rlimit": 200}, {"unit": "decoder", "rlimit": 300}, {"unit": "decoder_inplace", "rlimit": 300}, {"unit": "serde_access", "rlimit": 200}],
     "kani": K_STRTAB + K_WS,
     "trusted_base": [T1, T2, T3, T4, T6, T8, VSTD, KANI, PERR,
                      "UTF-8 prevalidation (simdutf8) in Read::new_in is T4",
                      "fully-decoding half: parse_value2/parse_array2/parse_object2 are proved; their leaves Parser::parse_number (wrapper around the verified sonic_number::parse_number) and parse_str (scanning half verified in unit strings) enter through assumed contracts; surrogate pairing / float finiteness make the decoder reject MORE than the grammar, which the statement permits",
                      "serde SeqAccess::next_element_seed / MapAccess::next_key_seed / next_value_seed / end_map / end_seq: the comma-colon machine is proved to start the (arbitrary) element deserializer only at the grammar-prescribed position and to reject every other separator situation; the element deserializers themselves are programs (C04) and the per-type entry points of `impl Deserializer` are not under contract",
-                     "the in-place twin parse_value/parse_array/parse_object (PaddedSliceRead, DOM whole-input path) is not under contract"],
-    "level_text": "Verus proof that the fully-decoding parser parse_value2/parse_array2/parse_object2 succeeds only on, and consumes exactly, the grammar it is specified to consume, that this grammar followed by the trailing check is exactly RFC 8259 (theorem_text_l_is_rfc8259), and — for every input and length — that the validate-and-skip recogniser (skip_one, skip_array, skip_object, skip_string, skip_escaped_chars, skip_number, parse_literal, skip_space incl. its SIMD cache, parse_trailing) returns Ok iff the RFC 8259 grammar (specs/json_grammar.rs) matches, with the exact end offset; the table/lane contracts it assumes are discharged by Kani",
-    "level_note": "covers the validate-and-skip half of the statement through the checked reader `Read`; the serde visitor layer and the in-place DOM parser are outside (T1 for PaddedSliceRead)",
+                     "the in-place twin parse_dom/parse_value/parse_array/parse_object (DOM whole-input path) is proved in unit decoder_inplace under T9; the reader contract T1 is assumed for PaddedSliceRead (raw pointers, 64 bytes of padding)", T9],
+    "level_text": "Verus proof that the fully-decoding parsers — copy-out parse_value2/parse_array2/parse_object2 and in-place parse_dom/parse_value/parse_array/parse_object (the from_str::<Value> path) — succeed only on, and consumes exactly, the grammar it is specified to consume, that this grammar followed by the trailing check is exactly RFC 8259 (theorem_text_l_is_rfc8259), and — for every input and length — that the validate-and-skip recogniser (skip_one, skip_array, skip_object, skip_string, skip_escaped_chars, skip_number, parse_literal, skip_space incl. its SIMD cache, parse_trailing) returns Ok iff the RFC 8259 grammar (specs/json_grammar.rs) matches, with the exact end offset; the table/lane contracts it assumes are discharged by Kani",
+    "level_note": "validate-and-skip half through the checked reader `Read`; both decoding drivers at parser level (string/number leaves through assumed or separately proved contracts); the serde per-type visitor layer is outside",
     "technique": TECH_VK,
     "explanation": "skip_one Ok <=> value_end(data, idx) is Some; parse_trailing Ok <=> only whitespace left",
 }
@@ -174,6 +175,11 @@ K_POSITION = [
     K("position_from_index_contract", "Position::from_index == (1 + newlines before offset, bytes since last newline), black-box, inputs <= 6 bytes, every offset",
       ["reader::Position::from_index"], kind="bounded(input length <= 6)"),
 ]
+K_DOMENTRY = [
+    K(n, "Value::parse_with_padding against the contracts of the in-place parser (buffer differs from the input inside consumed literals; error located relative to it) and of Error::syntax: the returned error carries offset <= len and the line/column of that offset in the ORIGINAL input; all inputs of %s bytes x both configuration flags" % l,
+      ["value::node::Value::parse_with_padding"], kind="bounded(input length = %s)" % l)
+    for n, l in [("dom_entry_error_position_len1", "1"), ("dom_entry_error_position_len2", "2"), ("dom_entry_error_position", "3"), ("dom_entry_error_position_len4", "4")]
+]
 K_UNCHECKED = [
     K("skip_string_unchecked_33", "skip_string_unchecked == scalar first-unescaped-quote scan (end offset, escape status), all 33-byte inputs over {\" \\ a} (one SIMD block + 1)",
       ["parser::Parser::skip_string_unchecked"], kind="bounded(33 bytes, 3-symbol alphabet)", tier="thorough", timeout=900),
@@ -188,14 +194,14 @@ K_STRBITS = [
 
 PROPS["C01"] = {
     "level": "proof",
-    "verus": [{"unit": "recognisers", "rlimit": 200}, {"unit": "errors", "rlimit": 200}, {"unit": "number", "rlimit": 400}],
+    "verus": [{"unit": "recognisers", "rlimit": 200}, {"unit": "errors", "rlimit": 200}, {"unit": "number", "rlimit": 400}, {"unit": "walkers", "rlimit": 200}, {"unit": "iterators", "rlimit": 200}, {"unit": "strings", "rlimit": 200}, {"unit": "decoder", "rlimit": 300}, {"unit": "decoder_inplace", "rlimit": 300}, {"unit": "serde_access", "rlimit": 200}, {"unit": "unchecked", "rlimit": 300}, {"unit": "getmany", "rlimit": 300}, {"unit": "owned_load", "rlimit": 400}],
     "kani": K_UNICODE + K_BLOCK[3:] + K_QUOTE[1:] + K_META[:1] + K_META[2:] + K_READER + K_OWNED[:2],
     "syntactic": [{"name": "recursion guard stays alive while the nested value is visited", "fn": synt.depth_guard_held},
                   {"name": "input-driven parser recursion has a depth budget", "fn": synt.parser_recursion_bounded}],
     "trusted_base": [T1, T2, T3, T4, T6, T8, VSTD, KANI,
                      "covers the functions under contract only: absence of panic/overflow/out-of-bounds is an obligation of every Verus-verified body (arithmetic, indexing, unreachable!, reader preconditions) and of every Kani harness (pointer checks); whole entry points on unbounded input, leaks, the in-place padded DOM parser, allocator behaviour are NOT covered",
                      "stack boundedness is not expressible as a function contract without a depth parameter in the code: the two syntactic checks stand in and are reported as syntactic"],
-    "level_text": "conjunction of (a) Verus proofs that the validating recogniser, the error constructors (snippet window slicing) and the number parser respect every callee precondition and cannot overflow, index out of bounds or reach unreachable!() for any input, (b) Kani/CBMC memory-safety + totality proofs of the unsafe leaf code over full domains (hex table, UTF-8 writer, \\u handler over 12-byte windows, block loader, page-cross guard, Meta packing, Reader impl, OwnedLazyValue type invariant); unbounded stack use (F1) is a recorded known finding",
+    "level_text": "conjunction of (a) Verus proofs that every function under contract in any unit — the validating recogniser, the error constructors (snippet window slicing), the number parser, the checked walkers and iterators, the string scanners, both decoding drivers, the serde access machine, the unchecked string skipper and the get_many walkers — respects every callee precondition and cannot overflow, index out of bounds or reach unreachable!() for any input, (b) Kani/CBMC memory-safety + totality proofs of the unsafe leaf code over full domains (hex table, UTF-8 writer, \\u handler over 12-byte windows, block loader, page-cross guard, Meta packing, Reader impl, OwnedLazyValue type invariant); unbounded stack use (F1) is a recorded known finding",
     "level_note": "partial by construction: functions, not entry points; see DESIGN.md §6 C01",
     "technique": TECH_VK,
     "explanation": "no-panic / in-bounds obligations of every function under contract; F1 (no depth bound) is a known finding",
@@ -203,14 +209,17 @@ PROPS["C01"] = {
 
 PROPS["C13"] = {
     "level": "proof",
-    "verus": [],
+    "verus": [{"unit": "owned_load", "rlimit": 400}],
     "kani": K_OWNED,
-    "trusted_base": [KANI, T4, "FastStr / Bytes drop glue excluded from the harnesses (mem::forget)",
-                     "only the type/representation invariant is under contract; accessor agreement with the DOM, verbatim re-serialization, clone/mutation histories are not"],
-    "level_text": "Kani/CBMC proof of the representation invariant that makes the lazy accessors total: every constructor of OwnedLazyValue from well-formed raw text (new, From<LazyValue>) yields a value whose get_type() is defined and equals the type the text denotes, for every JSON type including true/false/null",
-    "level_note": "type invariant only (the part of C13 a function contract can state); see DESIGN.md for what is not covered",
-    "technique": TECH_K,
-    "explanation": "LazyRaw.raw[0] in {-,0-9,\",[,{}; literals are Parsed",
+    "trusted_base": [T1, T2, T6, T8, VSTD, KANI, T4, PERR, "FastStr / Bytes drop glue excluded from the harnesses (mem::forget)",
+                     "unit owned_load: OwnedLazyValue is opaque — it enters through a ghost shape() and the contracts of its one-line constructors (from_non_esc_str, from_faststr, From<bool/()/Number/Vec<..>>, new keeping literals parsed: the latter is what the Kani harnesses owned_new_* check); FastStr / JsonSlice::as_faststr keep the bytes (T4)",
+                     "skip_one_unchecked is ASSUMED to agree with the validating skipper on a well-formed value (its string and number branches are proved in unit unchecked, skip_container is not); parse_str / Parser::parse_number enter through assumed contracts (units strings / number)",
+                     "three declared substitutions in get_owned_lazyvalue: `Some(b't') if self.match_literal(..)? => return ..` becomes `Some(b't') => { if self.match_literal(..)? { return .. } unreachable!() }` — Verus proves the unreachable!() (match_literal never returns Ok(false)), so the fall-through of the original guard is dead",
+                     "accessor agreement with the DOM (as_*, get on LazyRaw incl. the lock-free cache: C18), verbatim re-serialization (impl Serialize), clone/mutation histories are NOT under contract"],
+    "level_text": "Verus proof that the parser builds owned lazy values as faithful one-level views: get_owned_lazyvalue (strict: only on a well-formed value; both modes: on a well-formed value it stops just after it and keeps exactly its source span, literals parsed) and load_owned_lazyvalue (the children of a well-formed array / object are exactly the source spans of its elements / members in order, keys decoded; a well-formed array is never refused); Kani/CBMC proof of the representation invariant that makes the lazy accessors total: every constructor of OwnedLazyValue from well-formed raw text (new, From<LazyValue>) yields a value whose get_type() is defined and equals the type the text denotes, for every JSON type including true/false/null",
+    "level_note": "construction half (what the lazy value IS); the accessor / serialization / history half of the statement is not decided",
+    "technique": TECH_VK,
+    "explanation": "get_owned_lazyvalue: shape == child_shape(text); load_owned_lazyvalue: shape == Arr(arr_shapes) / Obj(obj_shapes); LazyRaw.raw[0] in {-,0-9,\",[,{}; literals are Parsed",
 }
 
 PROPS["C18"] = {
@@ -228,26 +237,26 @@ PROPS["C18"] = {
 
 PROPS["C03"] = {
     "level": "proof",
-    "verus": [{"unit": "decoder", "rlimit": 300}],
+    "verus": [{"unit": "decoder", "rlimit": 300}, {"unit": "decoder_inplace", "rlimit": 300}],
     "kani": K_META,
     "trusted_base": [T1, T2, T6, T8, VSTD, KANI, T4, PERR,
                      "DocumentVisitor itself (flattening into the thread-local node stack, arena copy with copy_nonoverlapping into bumpalo, back-pointer header) and the public read API walk are NOT under contract: what is proved is the event list the visitor is fed",
                      "string / number payloads are uninterpreted here (decoded, num_event) and delegate to C09 / C07; Parser::parse_number and parse_str enter through assumed contracts",
-                     "the in-place driver (parse_value on PaddedSliceRead) is the textual twin of the verified parse_value2 but is not itself verified"],
-    "level_text": "Verus proof that the copy-out parse driver parse_value2/parse_array2/parse_object2 feeds the visitor exactly the reference pre-order event list of the text (value_events: same nesting, array order, members in source order with duplicates kept, exact element/member counts, booleans/null exact), for every input; plus Kani/CBMC complete proofs of the packed node metadata the DOM is built from: kind/index/length round trips and totality of get_type for every packed value; the 29-bit index field is the known finding F5",
+                     T9],
+    "level_text": "Verus proof that both parse drivers — copy-out parse_value2/parse_array2/parse_object2 and the in-place parse_dom/parse_value/parse_array/parse_object behind from_str::<Value> — feed the visitor exactly the reference pre-order event list of the text (value_events: same nesting, array order, members in source order with duplicates kept, exact element/member counts, booleans/null exact), for every input; plus Kani/CBMC complete proofs of the packed node metadata the DOM is built from: kind/index/length round trips and totality of get_type for every packed value; the 29-bit index field is the known finding F5",
     "level_note": "event-list half + representation kernels; the arena construction between them is not decided",
-    "technique": TECH_K,
-    "explanation": "Meta::{pack_dom_node,unpack_dom_node,pack_static_str,get_type,unpack_root}",
+    "technique": TECH_VK,
+    "explanation": "parse_value2 / parse_value: trace' == trace + value_events(text); Meta::{pack_dom_node,unpack_dom_node,pack_static_str,get_type,unpack_root}",
 }
 
 PROPS["C12"] = {
     "level": "proof",
-    "verus": [{"unit": "iterators", "rlimit": 200}],
+    "verus": [{"unit": "iterators", "rlimit": 200}, {"unit": "unchecked", "rlimit": 300}],
     "kani": [],
     "trusted_base": [T1, T2, T4, T6, T8, VSTD, PERR,
                      "R8 guard lowering (match guards moved into the scrutinee tuple) applied to parse_array_elem_lazy / parse_entry_lazy",
                      "parse_str acceptance contract assumed in this unit (Ok ==> exactly one grammar-valid string consumed)",
-                     "skip_one_unchecked (unchecked iterators) assumed total; agreement of unchecked iterators on well-formed input not proved",
+                     "unchecked iterators: of skip_one_unchecked's branches, the string skipper and the number skipper (skip_number_unsafe, on a well-formed number in a well-formed context: found F15) are proved to end where the validating skipper ends (unit unchecked); skip_container and the dispatch itself are not under contract; get_next_token enters through an assumed contract (bounded Kani twin in the thorough tier)",
                      "LazyValue::new / JsonSlice carriers (Bytes, FastStr) are opaque (T4)"],
     "level_text": "Verus proof of the per-call contract of the checked array/object iterators: first call demands the opening bracket, every call yields exactly the next well-formed element's span (after a correct separator / name / colon) or the end or an error, and after an error or the end the iterator yields nothing and does not move (latch); by induction over calls this is the statement",
     "level_note": "checked iterators over the bounds-checked reader; key decoding is parse_str (assumed here)",
@@ -258,14 +267,15 @@ PROPS["C12"] = {
 PROPS["C20"] = {
     "level": "proof",
     "verus": [{"unit": "errors", "rlimit": 200}, {"unit": "iterators", "rlimit": 200}],
-    "kani": K_POSITION,
+    "kani": K_POSITION + K_DOMENTRY,
     "syntactic": [{"name": "not-found codes are constructed only in get* functions", "fn": synt.notfound_only_in_get}],
     "trusted_base": [T1, T4, T6, VSTD,
                      "Reader::check_utf8_final / invalid_utf8: the offset reported by simdutf8 is <= len (T4) — assumed as the trait contract `err_ok`",
                      "String formatting of the snippet (from_utf8_lossy, repeat, format!) is substituted by opaque helpers; Display is not covered",
                      "errors made by serde visitors (make_error / parse_line_col) are not covered",
+                     "dom_entry_error_position*: Parser::parse_dom (in-place parser) and Error::syntax enter through hand-written models of their contracts (kani::stub); TlsBuf::with_capacity is replaced by its own heap branch (Kani cannot compile the const thread_local)",
                      "StreamDeserializer::next body is verified inside an inherent impl (Verus takes no contracts on foreign-trait impls)"],
-    "level_text": "Verus proof that every error built by the parser (Parser::error -> Error::syntax) carries an offset <= input length and exactly the line/column of that offset (Position::from_index against line_of/col_of), that the snippet window arithmetic and slicing cannot go out of bounds, that classify() yields NotFound only for the four lookup codes, and that the stream deserializer and both lazy iterators latch after an error or the end",
+    "level_text": "Verus proof that every error built by the parser (Parser::error -> Error::syntax) carries an offset <= input length and exactly the line/column of that offset (Position::from_index against line_of/col_of), that the snippet window arithmetic and slicing cannot go out of bounds, that classify() yields NotFound only for the four lookup codes, and that the stream deserializer and both lazy iterators latch after an error or the end; bounded Kani proof that the whole-document DOM entry (parse_with_padding) re-locates in-place parser errors in the original text",
     "level_note": "offsets of UTF-8 errors rest on simdutf8 (T4); message text/Display not covered",
     "technique": TECH_V,
     "explanation": "err_ok(e, data) := index <= len && line == line_of(index) && column == col_of(index)",
